@@ -196,6 +196,21 @@ def check_multiset(ctx, centre, counter, limit=400, big=False):
                           % o['exc'], dict(case, text=t), {'msg': o['msg']})
             return
         groups.append(('parse %r' % t, o['ok']))
+    if len(groups) % 3 == 0 and not big:
+        # copies / unpickled copies of a group are that group (name, hash,
+        # equality with the other spellings)
+        from vmon.core import clones
+        others = [g_ for _, g_ in groups[1:4]]
+        clones.agreement(ctx, case, groups[0][1], [
+            ('str', lambda g_: str(g_)),
+            ('hash', lambda g_: repr(hash(g_) == hash(others[0])
+                                     if others else hash(g_))),
+            ('== other spellings', lambda g_: repr([g_ == o_ and o_ == g_
+                                                    for o_ in others])),
+            ('!= other spellings', lambda g_: repr([g_ != o_
+                                                    for o_ in others])),
+            ('in a set', lambda g_: repr(len(set([g_] + others))))],
+            'group', 'after')
     first = groups[0][1]
     for how, g in groups:
         c = dict(case, how=how)
